@@ -7,8 +7,8 @@ from harness.urlutil import pyparts
 
 PID = "C01"
 URL_DATA = os.path.join(tlc.SPEC_DIR, "data", "urlgen.json")
-DANGEROUS = "{5,6,7,8,9,10,11,12,14,16,17,19,20,21,22,23,24,25,26,27,28,29,30,32,33,35,36,39}"
-ALL = "{" + ",".join(str(i) for i in range(1, 41)) + "}"
+DANGEROUS = "{5,6,7,8,9,10,11,12,14,16,17,19,20,21,22,23,24,25,26,27,28,29,30,32,33,35,36,39,41,42,43}"
+ALL = "{" + ",".join(str(i) for i in range(1, 44)) + "}"      # every token of Tokens.tla
 
 
 def execute(case):
@@ -61,7 +61,7 @@ def make_cases(data):
 
 def run(ctx):
     ctx.model_check("C01", cfg_text=INV + _cfg(1, ALL), env=ENV, label="S:C01 pipeline, all tokens, len<=1")
-    ctx.model_check("C01", cfg_text=INV + _cfg(2, ctx.pick("{6,7,8,11,12,16,20,22,25,27,29,30,33,35}", DANGEROUS)), env=ENV,
+    ctx.model_check("C01", cfg_text=INV + _cfg(2, ctx.pick("{6,7,8,11,12,16,20,22,25,27,29,30,33,35,41,42}", DANGEROUS)), env=ENV,
                     label="S:C01 pipeline, dangerous tokens, len<=2")
     gl, sn, rlen, rn = ctx.pick((2, 2500, "{4}", 40), (2, 40000, "{3, 4, 6}", 1500))
     data, _ = ctx.generate("Gen_C01", cfg_text="INIT GenInit\nNEXT GenNext\n" + _cfg(0, "{1}", " GLen = %d\n SN = %d\n RLen = %s\n RN = %d\n FocusIdx = {1, 3, 14, 17, 18, 27, 35, 36}\n FLen = %d\n FocusCtx = {1, 4, 9, 11}\n" % (gl, sn, rlen, rn, ctx.pick(4, 5))),
@@ -87,7 +87,7 @@ def run(ctx):
     ctx.traces_validated = len(cases) + len(scases)
     ctx.exhaustive = True
     ctx.rule = ("inputs: 12 focus contexts (user, password, path, query key, query value, fragment) x every token sequence of length <= %d "
-                "over the 40-token alphabet, TLC RandomSubset sequences of lengths %s, every sequence of length 3..4 (thorough 5) over 8 glue-prone tokens in 4 contexts, and %s of the component-form product "
+                "over the 43-token alphabet, TLC RandomSubset sequences of lengths %s, every sequence of length 3..4 (thorough 5) over 8 glue-prone tokens in 4 contexts, and %s of the component-form product "
                 "(scheme x userinfo x host x port x path x query x fragment); x quoted x strip_fragment, default_protocol alternating; "
                 "non-trivial = result differs from input" % (gl, rlen, "all" if sn == 0 else "a RandomSubset of %d" % sn))
     ctx.assumptions = ["Url.tla's Split/NetParts = urllib.parse.urlsplit (cross-checked per event: MODEL-DRIFT)",
